@@ -1065,7 +1065,7 @@ type IPv6FlowLabelField struct {
 }
 
 func (m *IPv6FlowLabelField) Len() uint16 {
-	return 3
+	return 4
 }
 
 func (m *IPv6FlowLabelField) MarshalBinary() (data []byte, err error) {
